@@ -2,7 +2,7 @@
 from ..framework import Check
 from .. import mgr_check
 
-THEOREMS = ['C01_exactly_once', 'C01_recipients_subscribed', 'C01_valid_dest', 'C01_dest_filter', 'C01_invalid_dest_nobody', 'C01_deliver_decision', 'C01_unmodified', 'C01_ex', 'C01_forward_exact', 'C01_forward_exact_ex', 'C01_only_recipients', 'C01_only_recipients_service', 'C01_only_recipients_meaning', 'C01_only_recipients_ex', 'C01_only_recipients_ex_invalid']
+THEOREMS = ['C01_exactly_once', 'C01_recipients_subscribed', 'C01_valid_dest', 'C01_dest_filter', 'C01_invalid_dest_nobody', 'C01_deliver_decision', 'C01_unmodified', 'C01_ex', 'C01_forward_exact', 'C01_forward_exact_ex', 'C01_only_recipients', 'C01_only_recipients_service', 'C01_only_recipients_meaning', 'C01_only_recipients_ex', 'C01_only_recipients_ex_invalid', 'C01_healthy_served', 'C01_service_total', 'C01_served_once_meaning', 'C01_healthy_served_ex', 'C01_healthy_served_ex_monitor_fails']
 CHECKERS = ['C01', 'C03']
 
 
